@@ -6,12 +6,15 @@ BO strictly increases from chain element to chain element, scaffold NO = 0, bubb
 1..M in python-string-sorted id order, chromosomes get disjoint ascending BO ranges in --chromosome_order order.
 Checked across runs: identical (BO, NO) for every permutation / shuffle of the S/L lines, for PYTHONHASHSEED 0..3 (0..7)
 in a subprocess, and for inputs that already carry BO/NO tags (garbage values or the output of an earlier run).
+Also: the documented default chromosome order (25 chromosomes, no --chromosome_order), and - under its own section
+'numeric-ids', reported with known_finding 'order_gfa-numeric-node-ids' - chains whose node ids are decimal numbers.
 """
 import itertools
 
 from rtc import orderlib as ol
 
 S = "S\t%s\t%s\tSN:Z:%s\tSO:i:%d\tSR:i:%d"
+DEFAULT_ORDER = ["chr%d" % i for i in range(1, 23)] + ["chrX", "chrY", "chrM"]  # docs: "Default: chr1,...,chr22,chrX,chrY,chrM"
 
 
 def tiny_graphs():
@@ -42,14 +45,15 @@ def check(d, case, base_bono=None):
     """run one case with the real tool; -> (problems, bono).  case: lines, order, by_chrom, hashseed (None = in-process),
     base_lines (optional: lines of the run the BO/NO assignment must equal)"""
     lines, order, by_chrom = case["lines"], case["order"], case.get("by_chrom", True)
+    asked = [] if case.get("default") else order  # default: no --chromosome_order; `order` is then the documented default list
     _segs, _links, by_name, _chains = ol.analyse(lines)
     chains = [by_name.get(c) for c in order]
     if any(c is None or not c.in_domain for c in chains):
         return ["input outside the domain: %s" % [(c.name, c.why) if c else None for c in chains]], None
     if case.get("hashseed") is None:
-        res = ol.run_inproc(d, lines, order, by_chrom=by_chrom)
+        res = ol.run_inproc(d, lines, asked, by_chrom=by_chrom)
     else:
-        res = ol.run_cli(d, lines, order, by_chrom=by_chrom, hashseed=case["hashseed"])
+        res = ol.run_cli(d, lines, asked, by_chrom=by_chrom, hashseed=case["hashseed"])
     if not res.ok():
         return ["order_gfa failed: " + res.describe()], None
     bono = ol.bono_from_files(res, order, by_chrom=by_chrom)
@@ -133,15 +137,15 @@ def run(ctx):
         one_graph(ctx, d, lines, chrom, 1, limit, "tiny graph " + name)
 
     # 2. generated chains
-    n_graphs = 110 if quick else 4000
+    n_graphs = 300 if quick else 6000
     n_shuffles = 20 if quick else 50
-    ctx.bound("generated: up to %d rGFAs of 1-3 chromosomes, each a reference backbone of 2-15 nodes with 0-9 ears (deletion links, "
+    ctx.bound("generated: up to %d rGFAs of 1-3 chromosomes, each a reference backbone of 2-15 nodes with 0-9 ears (thorough: every 10th graph 16-31 nodes, 5-20 ears) (deletion links, "
               "1-3 node alleles, nested/overlapping, cross links), optional tips at the chain ends, inverted links, self links, 4 id "
               "styles; per graph <= %d --chromosome_order values (permutations of subsets), %d line shuffles, 3 pre-tagged variants"
               % (n_graphs, 4 if quick else 15, n_shuffles))
     seeds_graphs = []
     for gi in range(n_graphs):
-        size = rng.choice(["tiny", "small", "small", "medium"])
+        size = rng.choice(["tiny", "small", "small", "medium"] if quick or gi % 10 else ["large"])
         lines, names = ol.make_chain_gfa(rng, size=size)
         _s, _l, by_name, chains = ol.analyse(lines)
         good = [n for n in names if n in by_name and by_name[n].in_domain]
@@ -151,8 +155,28 @@ def run(ctx):
         single = any(sum(1 for e in by_name[n].elements if e[0] == "s") == 1 for n in good)
         if single or len(good) > 1:
             seeds_graphs.append((single, lines, good))
-        if ctx.out_of_time(40 if quick else 600):
+        if ctx.out_of_time(45 if quick else 600):
             break
+
+    # 2b. no --chromosome_order: the documented default chr1..chr22,chrX,chrY,chrM
+    n_def = 2 if quick else 12
+    ctx.bound("default order: %d rGFAs with exactly the 25 default chromosomes (each a small chain), no --chromosome_order given" % n_def)
+    for gi in range(n_def):
+        b = ol.Builder(rng, ol.Ids(rng, "s" if gi % 2 else "case"), 0.1, 0.1)
+        names = list(DEFAULT_ORDER)
+        rng.shuffle(names)
+        for c in names:
+            ears = rng.randint(0, 2)
+            n_back = rng.randint(1, 3)
+            ol.add_chain(b, c, n_back, ears, tips=(ears > 0 or n_back == 1 or rng.random() < 0.2, rng.random() < 0.2))
+        lines = b.lines(interleave=True)
+        by_name = ol.analyse(lines)[2]
+        if not all(c in by_name and by_name[c].in_domain for c in DEFAULT_ORDER):
+            continue
+        case = {"lines": lines, "order": list(DEFAULT_ORDER), "by_chrom": gi % 2 == 0, "hashseed": None, "default": True}
+        problems, _b = check(d, case)
+        ctx.case("default-order", ol.digest(lines, "default"))
+        _report(ctx, "default-order", problems, case, "25 default chromosomes, no --chromosome_order")
 
     # 3. hash seed independence (subprocess)
     seeds = range(4) if quick else range(8)
